@@ -35,6 +35,8 @@ def scenarios(pid, thorough):
         if pid == 'C04':
             for k in (kinds if thorough else ['apply', 'imap']):
                 S.append(dict(kind='idleloss', job=k))
+            S.append(dict(kind='loss', procs=1, job='apply', how=['signal', 9], closing=True))
+            S.append(dict(kind='loss', procs=2, job='apply', how=['exit', 3], closing=True))
             # converse clause: workers that leave after finishing their work cause no failure
             S.append(dict(kind='recycle', quota=1, job='map', slow=True, items=12, chunk=3))
             S.append(dict(kind='recycle', quota=2, job='imapu', slow=True, items=8))
